@@ -37,7 +37,8 @@ def make_plan(tape, prop):
     plan["nproc"] = 4 + tape.draw(5)          # how many fresh-interpreter configurations are executed
     plan["pick"] = [tape.draw(1 << 10) for _ in range(12)]
     plan["unrelated"] = tape.draw(1 << 16)
-    plan["variant"] = tape.draw(3)      # 1: every independent input sits in its own directory next to its own defs.prophy
+    plan["variant"] = tape.draw(4)      # 1: every independent input sits in its own directory next to its own defs.prophy
+                                        # 3: self-contained inputs defining the same struct name, compiled with a patch file
                                         # 2: the common file is found only through the last of two -I directories
     return plan
 
@@ -72,6 +73,7 @@ class DetRun(object):
         self.log = hashlib.sha1()
         self.trace = []
         self.incdirs = []
+        self.patch = None
 
     def count(self, k, n=1):
         self.stats[k] = self.stats.get(k, 0) + n
@@ -100,6 +102,17 @@ class DetRun(object):
                         "\nstruct XDir%d { u8 pad[DIRK]; };\n" % k
                     inputs.append("d%d/tail%d.prophy" % (k, k))
                 self.faults["same_include_name_in_two_directories"] = 1
+                return files, inputs
+            if self.plan.get("variant") == 3 and len(tails) >= 2:
+                inputs = []
+                for k, t in enumerate(tails):
+                    name = "t%d/tail%d.prophy" % (k, k)
+                    files[name] = render.prophy_text({"defs": common + [t]}) + \
+                        "\nstruct Hdr { u32 id; u16 v%d; };\nstruct Body%d { Hdr h; u8 x; };\n" % (k, k)
+                    inputs.append(name)
+                files["p.patch"] = "Hdr type id u64\nAbsentOne type x u8\n"
+                self.patch = "p.patch"
+                self.faults["patch_applied_to_same_name_in_several_inputs"] = 1
                 return files, inputs
             if self.plan.get("variant") == 2:
                 files["inc/common.prophy"] = render.prophy_text({"defs": common})
@@ -132,6 +145,8 @@ class DetRun(object):
             argv += [o, show(outdir)]
         for d in self.incdirs:
             argv += ["-I", show(os.path.join(root, "src", d))]
+        if self.patch:
+            argv += ["--patch", show(os.path.join(root, "src", self.patch))]
         argv += [show(os.path.join(root, "src", i)) for i in inputs]
         env = {"PYTHONHASHSEED": str(hashseed), "PYTHONPATH": REPO, "PATH": os.environ.get("PATH", ""),
                "PYTHONDONTWRITEBYTECODE": "1"}
@@ -233,6 +248,8 @@ class DetRun(object):
         for d in self.incdirs:
             if fs.isdir("/w/src/" + d):
                 argv += ["-I", "/w/src/" + d]
+        if self.patch and fs.isfile("/w/src/" + self.patch):
+            argv += ["--patch", "/w/src/" + self.patch]
         argv += ["/w/src/" + i for i in inputs]
         nodes, exc, so, se = simworld.run_prophyc(fs, argv)
         if exc is not None:
